@@ -121,6 +121,9 @@ pub struct Ev {
     pub tx_index: u32,
     pub io_index: u32,
     pub is_output: bool,
+    /// capacity / data of the cell that appears (rich-indexer: get_transactions filters on them)
+    pub capacity: u64,
+    pub data: Vec<u8>,
 }
 
 #[derive(Clone, Default)]
@@ -163,6 +166,8 @@ impl Model {
                             tx_index: ti as u32,
                             io_index: ii as u32,
                             is_output: false,
+                            capacity: c.capacity,
+                            data: c.data,
                         });
                     }
                 }
@@ -181,6 +186,8 @@ impl Model {
                     tx_index: ti as u32,
                     io_index: oi as u32,
                     is_output: true,
+                    capacity,
+                    data: data.to_vec(),
                 });
                 self.live.insert(
                     (th, oi as u32),
@@ -369,6 +376,51 @@ impl SK {
         in_range(e.block_number, &f.block_range)
     }
 
+    /// rich-indexer get_transactions (/repo/rpc/src/module/rich_indexer.rs): every filter of
+    /// get_cells applies to the cell that appears in the transaction (as an output, or as the
+    /// consumed cell of an input); `block_range` is taken over the block of the transaction in
+    /// which the cell appears; `script` = the other script, matched as a prefix (the
+    /// documentation says "filter cells by type script"; the code comments "default prefix
+    /// search" — stated as an assumption in the evidence).
+    pub fn ev_matches_rich(&self, e: &Ev, q: Quirks) -> bool {
+        let Some(s) = self.searched(&e.lock, &e.type_) else {
+            return false;
+        };
+        if !s.matches(&self.script, self.eff_mode()) {
+            return false;
+        }
+        let Some(f) = &self.filter else {
+            return true;
+        };
+        let other = self.other(&e.lock, &e.type_);
+        if let Some(fs) = &f.script {
+            match other {
+                Some(o) if o.matches(fs, Mode::Prefix) => {}
+                _ => return false,
+            }
+        }
+        if f.script_len_range.is_some() {
+            let l = other.map(|o| o.len()).unwrap_or(0);
+            let r = f.script_len_range.map(|(lo, hi)| (lo, if q.len_end_inclusive { hi.saturating_add(1) } else { hi }));
+            if !in_range(l, &r) {
+                return false;
+            }
+        }
+        if let Some(d) = &f.output_data {
+            let ok = match f.output_data_mode.unwrap_or(Mode::Prefix) {
+                Mode::Prefix => e.data.starts_with(d),
+                Mode::Exact => e.data == *d,
+                Mode::Partial => contains(&e.data, d),
+            };
+            if !ok {
+                return false;
+            }
+        }
+        in_range(e.data.len() as u64, &f.output_data_len_range)
+            && in_range(e.capacity, &f.output_capacity_range)
+            && in_range(e.block_number, &f.block_range)
+    }
+
     /// The searched script of a matching cell (for the per-script order check).
     pub fn cell_script<'a>(&self, c: &'a Cell) -> &'a Scr {
         self.searched(&c.lock, &c.type_).expect("matching cell has the searched script")
@@ -395,6 +447,12 @@ impl Model {
     }
     pub fn evs_for_with(&self, sk: &SK, q: Quirks) -> Vec<&Ev> {
         let mut v: Vec<&Ev> = self.evs.iter().filter(|e| sk.ev_matches_with(e, q)).collect();
+        v.sort_by_key(|e| (e.block_number, e.tx_index, e.io_index, e.is_output));
+        v
+    }
+    /// Expected rich-indexer get_transactions entries, same order as `evs_for`.
+    pub fn evs_for_rich(&self, sk: &SK, q: Quirks) -> Vec<&Ev> {
+        let mut v: Vec<&Ev> = self.evs.iter().filter(|e| sk.ev_matches_rich(e, q)).collect();
         v.sort_by_key(|e| (e.block_number, e.tx_index, e.io_index, e.is_output));
         v
     }
